@@ -153,20 +153,30 @@ pub fn mod_switch_2n(n: usize, res: &mut [i64], lwe: &LWE<&[u8]>, rot_dir: LookU
             *x = div_round_by_pow2(x, diff);
         })
     } else {
-        let rem: usize = base2k - (log2n % base2k);
-        let size: usize = log2n.div_ceil(base2k);
+        // Keep log2(n) = log2n - 1 bits (as the first branch does), rounded: accumulate the limbs that hold
+        // them plus at least one rounding bit, then round once.
+        let bits: usize = log2n - 1;
+        let size: usize = (bits + 1).div_ceil(base2k).min(lwe.size());
         (1..size).for_each(|i| {
-            if i == size - 1 && rem != base2k {
-                let k_rem: usize = base2k - rem;
-                izip!(lwe.data().at(0, i).iter(), res.iter_mut()).for_each(|(x, y)| {
-                    *y = (*y << k_rem) + (x >> rem);
-                });
-            } else {
-                izip!(lwe.data().at(0, i).iter(), res.iter_mut()).for_each(|(x, y)| {
-                    *y = (*y << base2k) + x;
-                });
-            }
-        })
+            izip!(lwe.data().at(0, i).iter(), res.iter_mut()).for_each(|(x, y)| {
+                // `res` already holds the (possibly negated) first limb: apply the same sign to the others
+                let x: i64 = match rot_dir {
+                    LookUpTableRotationDirection::Left => -*x,
+                    LookUpTableRotationDirection::Right => *x,
+                };
+                *y = (*y << base2k) + x;
+            });
+        });
+        let tot: usize = size * base2k;
+        if tot > bits {
+            let diff: usize = tot - bits;
+            res.iter_mut().for_each(|x| {
+                *x = div_round_by_pow2(x, diff);
+            })
+        } else {
+            let diff: usize = bits - tot;
+            res.iter_mut().for_each(|x| *x <<= diff)
+        }
     }
 }
 
